@@ -132,6 +132,7 @@ def run(ctx):
     rule_three_notes(ctx, mod, sh, mean, model)
     rule_trivial(ctx, mod, model)
     rule_recognition(ctx, mod, sh, mean, model)
+    rule_names_accepted(ctx, mod)
     ctx.floor("R-C07-1", 40)
     ctx.floor("R-C07-2", 6)
     ctx.floor("R-C07-3", 10)
@@ -287,13 +288,21 @@ def rule_trivial(ctx, mod, model):
 
     def det(it, args, kwargs, node):
         calls.append(tuple(args[:2]))
-        return "<interval name>"
+        short_form = (args[2] if len(args) > 2 else kwargs.get("shorthand", False))
+        return "<interval shorthand>" if short_form is not False else "<interval name>"
     m2[I + ".determine"] = det
     x, y = Opaque("x"), Opaque("y")
     paths = paths_of(ctx.repo, fi, lambda: [[x, y]], summaries=m2)
     ok = len(paths) == 1 and paths[0].kind == "return" and paths[0].value == ["<interval name>"] and calls and calls[-1] == (x, y)
     ctx.check(ok, R, "determine[2 notes]", fi.where(), "determine([x, y])",
               "two notes must give [interval name of (x, y)], got %r" % [(p.kind, p.value) for p in paths])
+    # ... in both forms: an interval's shorthand ('5', 'b3') is no chord shorthand -- chord construction does not accept it
+    for flags in ([True], [True, True, True], [False, True]):
+        del calls[:]
+        paths = paths_of(ctx.repo, fi, lambda: [[x, y]] + list(flags), summaries=m2)
+        ok = len(paths) == 1 and paths[0].kind == "return" and paths[0].value == ["<interval name>"] and calls and calls[-1] == (x, y)
+        ctx.check(ok, R, "determine[2 notes,%s]" % flags, fi.where(), "determine([x, y], %s)" % ", ".join(map(str, flags)),
+                  "two notes must give [interval name of (x, y)] in the shorthand form too, got %r" % [(p.kind, p.value) for p in paths])
 
 
 def rule_recognition(ctx, mod, sh, mean, model):
@@ -386,3 +395,35 @@ def rule_recognition(ctx, mod, sh, mean, model):
                             ok, why = False, "long form at the same position is %s, expected root + %r" % (
                                 short(repr(lv[i]), 80), expect)
                 ctx.check(ok, R, inst, fi.where(), "determine(%s..%s rotated by %d)" % (L, key, r), why)
+
+
+def rule_names_accepted(ctx, mod):
+    """Every shorthand name determine() returns -- a polychord name as a whole, too -- is accepted by from_shorthand.  Concrete
+    chords on roots with a sharp or a flat (the parser's offsets count the root's accidentals), evaluated with the real code."""
+    R = "R-C07-R"
+    fd, ff = mod.func("determine"), mod.func("from_shorthand")
+    texts = ["F#m7", "BbM7", "C#7", "Ebm6", "AbM7", "F#m", "Bb7", "C#m7", "Dm7", "G7", "Ebm7", "F#dim7", "Bb6"]
+    for text in texts:
+        def go(it, text=text):
+            chord = it.call_function(ff, [text], {})
+            names = it.call_function(fd, [list(chord), True], {})
+            out = []
+            for nm in names:
+                try:
+                    out.append((nm, "return", it.call_function(ff, [nm], {})))
+                except RaiseEx as r:
+                    out.append((nm, "raise", r.exc))
+            return chord, names, out
+        try:
+            ps = explore(lambda ch: Interp(ctx.repo, ch, max_depth=60), go)
+        except CannotDecide as e:
+            raise AnalysisError("determine(from_shorthand(%r), True) and back: %s" % (text, e))
+        ok, why = len(ps) == 1 and ps[0].kind == "return", "outcome %s" % [(p.kind, short(repr(p.value), 80)) for p in ps]
+        if ok:
+            chord, names, out = ps[0].value
+            bad = [(nm, k, v) for nm, k, v in out if k != "return" or not isinstance(v, list) or not v]
+            if not any(k == "return" and v == chord for nm, k, v in out):
+                ok, why = False, "determine(%s, True) gives %s: none of them rebuilds the chord" % (chord, names)
+            elif bad:
+                ok, why = False, "determine(%s, True) returns the name %r, which from_shorthand does not accept (%s %r)" % (chord, bad[0][0], bad[0][1], bad[0][2])
+        ctx.check(ok, R, "names-accepted[%s]" % text, fd.where(), "every name of determine(from_shorthand(%r), True) through from_shorthand" % text, why)
